@@ -314,7 +314,20 @@ pub fn exec(it: &mut Interp, toks: &[&str], out: &mut Vec<String>) -> bool {
                 return true;
             };
             // a panic of the writer is a rejection of the round trip as well
-            let loaded = catch_unwind(AssertUnwindSafe(|| o.as_bytes())).ok().and_then(|b| try_load(&b));
+            let written = catch_unwind(AssertUnwindSafe(|| o.as_bytes())).ok();
+            let loaded = written.as_ref().and_then(|b| try_load(b));
+            // the file entry point must agree with the in-memory one on the crate's own bytes as well
+            if let Some(b) = &written {
+                match (&loaded, &load_via_file(b)) {
+                    (Some(x), Some(y)) => {
+                        if crate::interp::dump(x) != crate::interp::dump(y) {
+                            out.push("oracle FAIL from_binary(file) and from_bytes(bytes) build different ontologies".to_string());
+                        }
+                    }
+                    (None, None) => {}
+                    _ => out.push("oracle FAIL from_binary(file) and from_bytes(bytes) disagree on accept/reject".to_string()),
+                }
+            }
             match loaded {
                 Some(o2) => {
                     it.slots.insert(dst, o2);
